@@ -108,6 +108,10 @@ void model_insert(Block* b, const char* what) {
 }
 void model_remove(Block* b) { H.live.erase((uintptr_t)b->p); }
 
+void collect_all_heaps(bool force) {
+  for (size_t i = 0; i < H.heaps.size(); i++) { MHeap& m = H.heaps[i]; if (m.alive && m.prog == T->prog && m.kind != HK_BACKING && m.h) { sched_call_begin(); mi_heap_collect(m.h, force); } }
+  sched_call_begin(); mi_collect(force);
+}
 void verify_all_live(const char* when) { for (auto& kv : H.live) block_verify(kv.second, when); }
 
 // ---------------------------------------------------------------------------------
@@ -231,7 +235,7 @@ static void check_new_block(Block* b, const char* what, bool natural_align) {
   if (b->heap >= 0 && H.heaps[b->heap].arena_slot >= 0) {
     const MArena& ar = H.arenas[H.heaps[b->heap].arena_slot];
     if (!arena_contains(ar, p, b->usable)) sim_violation("arena_escape", "%s from a heap bound to arena %d returned %p (usable %zu) outside the arena [%p,+%zu)", what, ar.id, (void*)p, b->usable, (void*)ar.start, ar.size);
-  } else {
+  } else if (b->heap >= 0) {    // (an orphan re-allocated in place keeps its memory: nothing new was handed out)
     for (auto& ar : H.arenas) if (ar.id != 0 && ar.exclusive && (uint8_t*)p < ar.start + ar.size && p + b->usable > ar.start)
       sim_violation("arena_private", "%s from a heap that is not bound to exclusive arena %d returned %p inside it", what, ar.id, (void*)p);
   }
@@ -276,7 +280,11 @@ static void do_alloc(const Op& op) {
   mi_heap_t* h = (mh >= 0 ? heap_ptr(mh) : nullptr);
   g_busy[s] = 1;
   if (null_allowed(op)) expect_errors(EB_ENOMEM | EB_EOVERFLOW);
+  const bool bound = (mh >= 0 && H.heaps[mh].arena_slot >= 0);
+  const uint64_t mmaps0 = g_os.calls[OS_MMAP];
   AllocResult r = call_alloc(op, h);
+  if (bound && g_os.calls[OS_MMAP] != mmaps0 && sched_nthreads() == 1)
+    sim_violation("arena_fallback", "%s through a heap bound to arena %d made the allocator call mmap (%llu calls): an arena-bound heap must never fall back to the OS", op_names[op.code], H.arenas[H.heaps[mh].arena_slot].id, (unsigned long long)(g_os.calls[OS_MMAP] - mmaps0));
   g_busy[s] = 0;
   T->initialized = true;
   H.allocs++;
@@ -633,6 +641,7 @@ static void exec_op(const Op& op, int idx) {
   T->expect_err_mask = 0; T->note[0] = 0;
   H.ops_executed++;
   int c = op.code;
+  if (H.plan->auto_advance_every && (H.ops_executed % H.plan->auto_advance_every) == 0) clock_advance_ms(H.plan->auto_advance_ms);
   if (c <= OP_cfree) H.work_hash += mix64(((uint64_t)c << 32) ^ (uint64_t)(uint32_t)op.slot, op.a ^ (op.b << 20) ^ (op.c << 40));
   if (c == OP_collect && op.a == 0) H.activity_rounds++;
   if (c >= OP_malloc && c <= OP_new_aligned_nothrow) do_alloc(op);
@@ -705,6 +714,7 @@ extern const char* (*g_op_name_of)(int prog, int op);
   os_set_faults(fs);
   g_result_extra = &result_extra;
   g_crash_context = []() -> const char* { return T ? T->note : ""; };
+  g_abort_is_expected = []() -> bool { return T && T->misuse_in_progress && is_dbg_build() && (T->got_err_mask & (EB_EFAULT | EB_EAGAIN)) != 0; };
   g_op_name_of = [](int prog, int op) -> const char* { if (prog >= 0 && prog < (int)H.plan->progs.size() && op >= 0 && op < (int)H.plan->progs[prog].ops.size()) return op_names[H.plan->progs[prog].ops[op].code]; return "thread start/exit"; };
   if (plan.purge_overlap_check) g_os_purge_hook = &purge_hook;
   sched_run(prog_main, (void*)0);
